@@ -40,6 +40,10 @@ CHECKS.update(
     C19=dict(text="Symbolic execution of the real deriv_check / DerivError / Solver._deriv_check over arbitrary function values at x and x+eps*e_i and arbitrary derivative entries (dense gradient, sparse COO/CSR/CSC Jacobian/Hessian, m,n<=2; thorough <=3): pass => all entries within the checker's tolerance; all within deriv_tol => pass; DerivError names exactly the wrong rows of the first wrong column; the three differenced function/derivative pairs of Solver._deriv_check; a K=2 solve (L1 oracle) with the check enabled starts from the unchanged point.", note="Exact reals (finite differences exact; cancellation outside); 'correct derivative' := |d-fd| <= deriv_tol (Taylor bound assumed, not re-proved); checker's tolerance := atol + 1e-5|fd| (numpy.allclose).", ref="DESIGN.md §6 C19"),
 )
 
+CHECKS.update(
+    C01=dict(text="Three lemmas decided by z3 on the real code: (gate) every path of the real Solver.solve loop with an arbitrary step oracle: status Optimal => returned x,y,d are those of the last accepted iterate and its residual, re-evaluated by an independent oracle, is <= opt_tol; (transfer) for an arbitrary in-box internal iterate with total_res <= opt_tol, the restored x,y,d satisfy the user's KKT conditions with the statement's power-of-two tolerances, for every variable/row kind and enumerated weights |w|<=W (nlsat); (integration) IntegrationSolver.solve up to its first optimality gate against the same oracle -- three listed known findings (filter at rho vs residual at rho=0).", note="Exact reals; internal box assumed (C05); n<=2, m<=1 (thorough m<=2), W<=1 (thorough 2), K=2 (3); IntegrationSolver beyond its first gate (scipy BDF/event root finding) outside; integration gate assumes active_tol, opt_tol >= 1e-10.", ref="DESIGN.md §6 C01"),
+)
+
 NOT_APPLICABLE = {
     "C03": "liveness/convergence of hundreds of floating-point Newton iterations with data-dependent trip count: no bounded symbolic encoding can decide it (DESIGN.md §7)",
 }
